@@ -281,6 +281,15 @@ func init() {
 		if in.isNilValue(args[1]) {
 			panic(&GoPanic{V: Iface{T: types.Typ[types.String], V: StrOf("sync/atomic: store of nil value into Value")}, Msg: "sync/atomic: store of nil value into Value"})
 		}
+		// as the real one: every Store must carry the same concrete type
+		if s.has {
+			if ov, ok := s.val.(Iface); ok {
+				if nv, ok2 := args[1].(Iface); ok2 && ov.T != nil && nv.T != nil && !types.Identical(ov.T, nv.T) {
+					msg := "sync/atomic: store of inconsistently typed value into Value"
+					panic(&GoPanic{V: Iface{T: types.Typ[types.String], V: StrOf(msg)}, Msg: msg, Stack: in.where()})
+				}
+			}
+		}
 		s.val, s.has = args[1], true
 		return nil
 	})
